@@ -472,7 +472,10 @@ AnyCellmlElementPtr Annotator::AnnotatorImpl::convertToShared(const AnyCellmlEle
 void Annotator::AnnotatorImpl::buildIdList()
 {
     mIdList.clear();
-    mIdList = listIdsAndItems(mModel.lock());
+    auto model = mModel.lock();
+    if (model != nullptr) {
+        mIdList = listIdsAndItems(model);
+    }
 }
 
 void Annotator::AnnotatorImpl::refreshIdList()
@@ -1299,7 +1302,7 @@ bool Annotator::AnnotatorImpl::validItem(const AnyCellmlElementPtr &item)
         break;
     case CellmlElementType::UNIT: {
         auto unitsItem = item->unitsItem();
-        result = (unitsItem != nullptr) && (unitsItem->units() != nullptr);
+        result = (unitsItem != nullptr) && unitsItem->isValid();
     } break;
     case CellmlElementType::UNITS:
         result = item->units() != nullptr;
